@@ -1,0 +1,59 @@
+//go:build verif
+
+package chain
+
+// Add-only exporters used by the model-based verification harness (/verif).
+// Thin wrappers around unexported functions; no behaviour of their own.
+
+import (
+	"context"
+
+	"0chain.net/chaincore/block"
+	"0chain.net/chaincore/round"
+	"0chain.net/core/common"
+)
+
+// VerifFinalizeRound calls the unexported finalizeRound (what FinalizeRoundWorker runs per round).
+func (c *Chain) VerifFinalizeRound(ctx context.Context, r round.RoundI) {
+	c.finalizeRound(ctx, r)
+}
+
+// VerifFinalizeBlock calls the unexported finalizeBlock.
+func (c *Chain) VerifFinalizeBlock(ctx context.Context, fb *block.Block, bsh BlockStateHandler) error {
+	return c.finalizeBlock(ctx, fb, bsh)
+}
+
+// VerifCommonAncestor calls the unexported commonAncestor.
+func (c *Chain) VerifCommonAncestor(ctx context.Context, b1, b2 *block.Block) *block.Block {
+	return c.commonAncestor(ctx, b1, b2)
+}
+
+// VerifVerifyLFBTicket calls the unexported verifyLFBTicket.
+func (c *Chain) VerifVerifyLFBTicket(t *LFBTicket) bool {
+	return c.verifyLFBTicket(t)
+}
+
+// VerifLFBTicketPending returns the number of received tickets and broadcast requests
+// still queued for the LFB ticket worker (used as a barrier by the harness).
+func (c *Chain) VerifLFBTicketPending() int {
+	return len(c.updateLFBTicket) + len(c.broadcastLFBTicket)
+}
+
+// VerifPruneClientState calls the unexported pruneClientState.
+func (c *Chain) VerifPruneClientState(ctx context.Context) {
+	c.pruneClientState(ctx)
+}
+
+// VerifOfflineBlockFetcher stands in for StartBlockFetchWorker in a harness without network:
+// every queued block fetch request is answered (through the real terminate) with an error,
+// as the real worker does when no peer serves the block. Runs until ctx is done.
+func (c *Chain) VerifOfflineBlockFetcher(ctx context.Context) {
+	for {
+		select {
+		case <-ctx.Done():
+			return
+		case bfr := <-c.blockFetcher.fetchBlock:
+			c.blockFetcher.terminate(ctx, bfr, common.NewError("block_fetcher", "offline harness: no peer has the block"))
+		}
+	}
+}
